@@ -23,7 +23,7 @@ class Check:
         self.work = os.path.join(core.WORK, "%s_%d" % (prop, os.getpid()))
         shutil.rmtree(self.work, ignore_errors=True)
         os.makedirs(self.work)
-        self.checker_cmd = "cd /verif/coq && sh files.sh && make -j16 && coqc -Q . PNA Props/%s.v" % prop
+        self.checker_cmd = "cd /verif/coq && sh files.sh && make -j16 && for f in Props/%s.v Props/%s_*.v; do coqc -Q . PNA $f; done" % (prop, prop)
         self.rule = ""
         self.hist = {}
         self.search_specs = []        # (harness bin, gen_prop) for the failing-input search
@@ -35,7 +35,12 @@ class Check:
         if bad:
             self.violations.append(("proof", "forbidden declarations in the Coq development: " + "; ".join(bad[:5]),
                                     "grep over coq/: " + "\n".join(bad), False))
-        ok, log = core.coq_make(core.props_targets(self.prop))
+        files = core.props_files(self.prop)
+        if not files:
+            self.violations.append(("proof", "no Props file for %s" % self.prop, "theorem-or-correspondence: coq/Props/%s.v missing" % self.prop, False))
+            return False
+        targets = sorted(set(t for f in files for t in core.props_targets(f)))
+        ok, log = core.coq_make(targets)
         if not ok:
             tail = "\n".join(log.split("\n")[-25:])
             m = re.search(r'File "\./([^"]+)", line (\d+)', log)
@@ -44,13 +49,16 @@ class Check:
             self.violations.append(("proof", "Coq development no longer builds (%s)" % where,
                                     "theorem-or-correspondence: make all (coq/) fails at %s\n%s" % (where, tail), False))
             return False
-        ok, res, log, theorems = core.coq_props(self.prop)
-        if not ok:
-            tail = "\n".join(log.split("\n")[-25:])
-            self.obligations.append(("Props/%s.v" % self.prop, "FAILED"))
-            self.violations.append(("proof", "Props/%s.v does not check" % self.prop,
-                                    "theorem-or-correspondence: coq/Props/%s.v\n%s" % (self.prop, tail), False))
-            return False
+        res = []
+        for pf in files:
+            ok, res1, log, theorems = core.coq_props(pf)
+            if not ok:
+                tail = "\n".join(log.split("\n")[-25:])
+                self.obligations.append(("Props/%s.v" % pf, "FAILED"))
+                self.violations.append(("proof", "Props/%s.v does not check" % pf,
+                                        "theorem-or-correspondence: coq/Props/%s.v\n%s" % (pf, tail), False))
+                return False
+            res += res1
         for name, ans in res:
             if core.assumptions_ok(ans, allow_axioms):
                 self.obligations.append((name, "proved; " + ans.split("\n")[0]))
